@@ -268,8 +268,9 @@ local function run(w)
   elseif op == 'from_text' then
     local ok, n = pcall(bn.from, bytes_of_hex(w[2]))
     if not ok then
-      if tostring(n):find('malformed', 1, true) then return '!err malformed' end
-      error(n, 0)
+      -- a text the patterns refuse raises: either the 'malformed ...' assert, or (binary/hexadecimal) arithmetic on nil
+      -- later on, because lpeglabel returns nil, 'fail', position on a failed match and the label passes assert(int)
+      return '!err raises'
     end
     if bn.isbint(n) then return hex_of_limbs(n) end
     if math.type(n) == 'float' then return 'float' end
